@@ -245,7 +245,7 @@ func generate(r *hxlib.Run, emit func(hxlib.Case)) {
 	})
 
 	// ---- generated cases ----------------------------------------------------------------------------
-	nCases := r.Budget(260, 9000)
+	nCases := r.Budget(1500, 30000)
 	for ci := 0; ci < nCases; ci++ {
 		rootRel := pick(rng, rootRels)
 		comp := []string{"fst", "ds", "upd"}[ci%3]
@@ -267,6 +267,16 @@ func generate(r *hxlib.Run, emit func(hxlib.Case)) {
 					name, cls := g.relName()
 					if rng.Intn(25) == 0 {
 						name, cls = "", "empty"
+					} else if (op == "get" || op == "del" || op == "qry") && rng.Intn(4) == 0 {
+						// an existing entry, possibly reached through a detour
+						name, cls = pick(rng, g.staticNames()), "existing"
+						switch rng.Intn(4) {
+						case 0:
+							name, cls = "x/../"+name, "existing-detour"
+						case 1:
+							name, cls = "../"+g.rootName+"/"+name, "existing-reenter"
+							g.hostile = true
+						}
 					}
 					ops = append(ops, op+" "+hx(name))
 					count(op, cls)
@@ -299,9 +309,17 @@ func generate(r *hxlib.Run, emit func(hxlib.Case)) {
 						for j := 0; j < k; j++ {
 							var nm, cls string
 							if rng.Intn(3) == 0 || j < k-1 && rng.Intn(2) == 0 {
-								nm, cls = pick(rng, []string{"f1", "f2", "d/", "d/f", "d/g/", "d/g/h", "f1", "d"}), "plain-entry"
+								// a well-formed tree in archive order (a directory entry precedes its content)
+								tree := []string{"f1", "d/", "d/f", "d/g/", "d/g/h", "f2"}
+								nm, cls = tree[(j+len(names))%len(tree)], "plain-entry"
+								if rng.Intn(6) == 0 {
+									nm = pick(rng, tree)
+								}
 							} else {
 								nm, cls = g.relName()
+								if (cls == "benign" || cls == "existing") && rng.Intn(2) == 0 {
+									nm = nm[strings.LastIndex(nm, "/")+1:] // a single segment: its parent exists
+								}
 								if rng.Intn(4) == 0 && !strings.HasSuffix(nm, "/") {
 									nm += "/"
 								}
